@@ -189,8 +189,13 @@ def run_programs(progs):
                 if body is None:
                     continue
                 opts = dict(OPTS0, **(p.get("opts") or {}))
-                cpy, env0 = run_cpython(p["src"], opts)
-                pys = await run_pyscript(p["src"], opts)
+                try:
+                    cpy, env0 = run_cpython(p["src"], opts)
+                    pys = await run_pyscript(p["src"], opts)
+                except RecursionError:
+                    # a container that (indirectly) contains itself has no finite structural description: the program is
+                    # dropped (counted by execute() in coverage.programs_dropped)
+                    continue
                 c = dict(p)
                 c.update(body=body, env0=env0, opts=opts, cpy=cpy, pys=pys)
                 out.append(c)
@@ -1229,6 +1234,7 @@ def execute(ctx, progs, nproc=12):
     jobs = [{"progs": progs[i::nproc]} for i in range(nproc)]
     outs = run_workers("harness.drivers.c01", "work", jobs, ctx.scratch, nproc=nproc)
     cases = [c for o in outs for c in o]
+    ctx.cov["programs_dropped"] = ctx.cov.get("programs_dropped", 0) + len(progs) - len(cases)
     for c in cases:
         c["feats"] = sorted(feats(c["body"], c["opts"], c["cpy"]["exc"]))
         c["masked"] = (c["opts"] == QUIET) and not c["feats"]
